@@ -152,3 +152,30 @@ def self_paths(ws, argidx=0):
 
 def fmt_ws(fn, ws):
     return sorted(fn.arg_name(a + 1) + "".join("." + x for x in ch) for a, ch in ws)
+
+
+def tested_on_path(fn, G, R, at_bb, call_bb):
+    """the outcome of the call issued in block call_bb (or of an adaptor applied to its result) was tested on every path
+    to at_bb"""
+    for f in G.at_entry(at_bb) | G.before_term(at_bb):
+        if f[0] == "hist":
+            hb = f[2]
+            if hb == call_bb:
+                return True
+            t = fn.blocks[hb]["term"]
+            if t["k"] == "call" and mentions_call_at(R.call_expr(hb, t), call_bb, fn, R):
+                return True
+    return False
+
+
+def mentions_call_at(e, bb, fn=None, R=None, depth=0):
+    """expression tree contains the call issued in block bb (possibly through a reference to the local holding its result)"""
+    if not isinstance(e, (tuple, frozenset)) or depth > 14:
+        return False
+    if isinstance(e, tuple) and e and e[0] == "call" and len(e) > 4 and e[4] == bb:
+        return True
+    if isinstance(e, tuple) and len(e) == 2 and e[0] == "loc" and isinstance(e[1], int) and fn is not None:
+        ds = fn.defs().get(e[1], [])
+        if len(ds) == 1 and ds[0][1] == "term" and ds[0][0] == bb:
+            return True
+    return any(mentions_call_at(x, bb, fn, R, depth + 1) for x in e if isinstance(x, (tuple, frozenset)))
